@@ -109,7 +109,12 @@ class Transaction:
             # while this transaction is open deletes it (it may well be older
             # than the grace period) and the commit then references a missing
             # file. append_data() has already registered its own file.
-            own_file = self._marker_path_for(data_file.file_path) in self._inflight_markers
+            # (Own = written by append_data() of this transaction. Judging that
+            # by the marker name was wrong for a file in a sub-directory, whose
+            # pre-built marker carries the same digest name: once a first,
+            # rejected append_files had registered that marker, queueing the
+            # file again skipped the fsync below.)
+            own_file = data_file.file_path.lstrip("/") in self._written_files
             if (
                 not own_file
                 and self._marker_path_for(data_file.file_path, prebuilt=True) not in self._inflight_markers
